@@ -355,6 +355,24 @@ def run(chk: Check) -> None:
                     wanted_rows.add((inc, v, c, min(ln, 9), ex))
     finally:
         slog.uninstall()
+    # the snapshot's own text format: the key of an entry is the ISO form of the packet's time stamp (model: LogLine.fmtIso,
+    # theorem C02Log.snapEntry_restores); real packets at the extremes of the calendar and of the fraction
+    from datetime import datetime as _dt
+
+    from ramses_tx.packet import Packet
+
+    key_reqs, key_impl = [], []
+    for y, us_ in ((1, 0), (999, 1), (1000, 999999), (9999, 0), (2024, 0), (2024, 500000)) + tuple((rnd.randrange(1, 10000), rnd.choice((0, rnd.randrange(10**6)))) for _ in range(60)):
+        d = _dt(y, rnd.randrange(1, 13), rnd.randrange(1, 29), rnd.randrange(24), rnd.randrange(60), rnd.randrange(60), us_)
+        p = Packet(d, "...  I --- 01:145038 --:------ 01:145038 1F09 003 FF073F")
+        r = repr(p)
+        key_reqs.append(f"log.iso\t{d.year}\t{d.month}\t{d.day}\t{d.hour}\t{d.minute}\t{d.second}\t{d.microsecond}")
+        key_impl.append("ok\t" + r[:26].replace(" ", "%20;") if " " in r[:26] else "ok\t" + r[:26])
+        if r[26:27] != " " or Packet.from_dict(r[:26], r[27:]).dtm != d:
+            chk.violation("c16.snapshot.key_format", f"repr(pkt) = {r!r}: cut at columns 26/27 it does not restore to {d.isoformat()}", {"op": "key", "dtm": d.isoformat()})
+    for r, a, b in zip(key_reqs, key_impl, Model().run(key_reqs)):
+        if a != b:
+            chk.divergence("log.iso", {"req": r}, a, b)
     outs = Model().run(reqs)
     for r, a, b, m in zip(reqs, impl, outs, meta):
         got = b.split("\t")
